@@ -549,6 +549,7 @@ type Explorer struct {
 	pathViolated bool
 	uid          int
 	terms        map[string]sym
+	prefNeg      string
 	fp           bool // the path has floating-point terms: one-shot queries
 	harnessState
 }
@@ -780,6 +781,11 @@ func (x *Explorer) choice(n int, label string) int {
 
 // concretize forks over the feasible values of a symbolic integer (at most MaxValues).
 func (x *Explorer) concretize(s sym, why string) uint64 {
+	return x.concretizeN(s, why, x.sh.Cfg.MaxValues, false)
+}
+
+// concretizeN: at most maxVals values; quiet = an explicit, documented concretisation (no BOUND-REDUCED report).
+func (x *Explorer) concretizeN(s sym, why string, maxVals int, quiet bool) uint64 {
 	if !s.s.isBV() && s.s != sBool {
 		panic(unsupported("concretize non-integer at " + why))
 	}
@@ -818,10 +824,10 @@ func (x *Explorer) concretize(s sym, why string) uint64 {
 		// is there one more value? (one query now saves a whole re-execution that would only find "none")
 		more := x.query("(and "+strings.Join(append(append([]string{"true"}, cs...), "(not (= "+s.e+" "+x.valLit(s, v)+"))"), " ")+")", false)
 		if more != "unsat" {
-			if len(nx) < x.sh.Cfg.MaxValues {
+			if len(nx) < maxVals {
 				x.queueAlt(decision{kind: dValue, pending: true, excl: nx})
-			} else {
-				x.boundReduced("more than " + strconv.Itoa(x.sh.Cfg.MaxValues) + " values at concretisation site: " + why)
+			} else if !quiet {
+				x.boundReduced("more than " + strconv.Itoa(maxVals) + " values at concretisation site: " + why)
 			}
 		}
 	}
@@ -997,7 +1003,19 @@ func (x *Explorer) assert(label string, c value) {
 		}
 		return
 	case sym:
-		r := x.query("(not "+c.e+")", true)
+		r := ""
+		if x.prefNeg != "" {
+			// a preferred (more telling) counterexample region, e.g. a size far beyond the bound
+			r = x.query("(and (not "+c.e+") "+x.prefNeg+")", true)
+			if r != "sat" {
+				x.popModel()
+				r = ""
+			}
+			x.prefNeg = ""
+		}
+		if r == "" {
+			r = x.query("(not "+c.e+")", true)
+		}
 		var m []ModelVal
 		var ev []string
 		if r == "sat" {
